@@ -47,7 +47,7 @@ REAL_VS_STUB = {
 }
 PROBES = ["all_commands_succeed", "first_command_fails", "middle_command_fails", "last_command_fails", "death_by_signal", "return_file_missing",
           "all_return_files_missing", "return_file_is_input_file", "binary_input_file", "unnamed_command", "no_return_files_requested",
-          "runner_killed_mid_command", "driver_second_instance_used_after_first", "driver_job_level_override", "driver_subclass_instance", "driver_created_used_dropped"]
+          "runner_killed_mid_command", "driver_second_instance_used_after_first", "driver_job_level_override", "driver_subclass_instance", "driver_created_used_dropped", "driver_class_level_envars", "two_jobs_same_jid_overlap"]
 
 FAIL_KINDS = [("rc", 1), ("rc", 2), ("rc", 255), ("sig", -11)]
 
@@ -95,6 +95,7 @@ def gen_plan(r, tier, index):
         "envars": r.choice([None, {}, {"OMP_NUM_THREADS": "4"}, {"OMP_NUM_THREADS": "2", "MOLLI_TEST_VAR": "a b", "HOME": "/nonexistent"}]),
         "drivers": {
             "job_level": r.choice([{}, {}, {"executable": "jobexe"}, {"nprocs": 3}, {"envars": {"JOBVAR": "J"}}]),
+            "class_envars": r.choice([None, None, {"CLSVAR": "c"}, {"CLSVAR": "c", "SHARED": "from-class"}]),
             "instances": [{"executable": f"exe{k}", "nprocs": r.choice([1, 2, 8, 16]), "memory": r.choice([None, 500, 4000]),
                            "envars": r.choice([None, {f"V{k}": str(k)}, {"SHARED": f"from{k}"}]), "subclass": r.random() < 0.25}
                           for k in range(r.choice([2, 2, 3]))],
@@ -112,7 +113,7 @@ def _file_value(spec):
     return bytes.fromhex(spec["hex"]) if "hex" in spec else spec["text"]
 
 
-def _exec_one(plan, fail, missing, kill_at, root, res, sigctx):
+def _exec_one(plan, fail, missing, kill_at, root, res, sigctx, twin=False):
     """fail: None or (position, kind, code); missing: frozenset of return names not produced; kill_at: None or command index."""
     from molli.pipeline import JobInput, JobOutput
 
@@ -150,6 +151,32 @@ def _exec_one(plan, fail, missing, kill_at, root, res, sigctx):
 
     fe = FakeExec(behaviour)
     sp = SimSpawn()
+    twin_info = {}
+    if twin:
+        # While command 0 of this job executes, ANOTHER job with the same job id (same scratch directory) runs from
+        # start to end - two conformers of one ensemble do exactly that under jobmap with several workers.
+        inp2 = os.path.join(root, "twin.inp")
+        ji.dump(inp2)
+
+        def hook(argv, rec):
+            if twin_info or argv[0] != "prog0":
+                return
+            twin_info["started"] = True
+            fe2 = FakeExec(behaviour)
+            sp2 = SimSpawn()
+            saved_run = __import__("molli.pipeline.runner", fromlist=["run"]).run
+            import molli.pipeline.runner as runner_mod
+
+            runner_mod.run = fe2
+            try:
+                p2 = sp2(["_molli_run", inp2, "-o", os.path.join(root, "out2"), "-s", scratch], cwd=work, capture_output=True, encoding="utf8")
+            finally:
+                runner_mod.run = saved_run
+            twin_info["rc"] = p2.returncode
+            twin_info["cwds"] = sorted({r2["cwd"] for r2 in fe2.log})
+            twin_info["stderr"] = p2.stderr[-300:]
+
+        fe.hook = hook
     with pipeline_seams(fe, sp):
         cwd0 = os.getcwd()
         proc = sp(["_molli_run", inp, "-o", outdir, "-s", scratch], cwd=work, capture_output=True, encoding="utf8")
@@ -164,6 +191,13 @@ def _exec_one(plan, fail, missing, kill_at, root, res, sigctx):
         res.violate(clause, f"C17|{clause}|{sigctx}", f"{detail} [jid={plan['jid']} commands={cmds} fail={fail} missing={sorted(missing)} kill_at={kill_at} "
                                                       f"exit={proc.returncode} stderr={proc.stderr[-300:]!r}]")
 
+    if twin:
+        res.stats["probe:two_jobs_same_jid_overlap"] += 1
+        mine = sorted({r_["cwd"] for r_ in fe.log})
+        if twin_info.get("rc") != proc.returncode or set(twin_info.get("cwds", [])) & set(mine):
+            return viol("private-directory", f"a second job with the same job id ran while this one was in its first command: "
+                                             f"directories {mine} vs {twin_info.get('cwds')}, exit {proc.returncode} vs {twin_info.get('rc')} "
+                                             f"(twin stderr {twin_info.get('stderr')!r})")
     # ---- what ran
     ran = [int(r_["argv"][0][4:]) for r_ in fe.log]
     last = n - 1 if fail is None else fail[0]
@@ -259,6 +293,12 @@ def _drivers(plan, res):
             return JobInput(str(x), commands=[(f"{self.executable} -n {self.nprocs} -m {self.memory} --flag {flag} {x}", "main")],
                             envars=dict(self.envars or {}), return_files=self.return_files)
 
+    cls_env = spec.get("class_envars")
+    if cls_env:
+        # class-level defaults of the driver class: every instance starts from them, none may add to them
+        Drv.envars = dict(cls_env)
+        res.stats["probe:driver_class_level_envars"] += 1
+
     class Sub(Drv):
         pass
 
@@ -287,7 +327,8 @@ def _drivers(plan, res):
             npr = jl.get("nprocs") or s["nprocs"] or 1
             mem = s["memory"] or 1000
             want_cmd = f"{exe} -n {npr} -m {mem} --flag {flag} item{di}"
-            want_env = dict(s["envars"] or {})
+            want_env = dict(cls_env or {})
+            want_env.update(s["envars"] or {})
             want_env.update(jl.get("envars") or {})
             got_cmd = ji.commands[0][0]
             if got_cmd != want_cmd:
@@ -331,7 +372,8 @@ def _drivers(plan, res):
             exe = jl.get("executable") or f"{s_['executable']}_{tag}{rnd}"
             npr = jl.get("nprocs") or (1 + (rnd * 7) % 9)
             mem = s_["memory"] or 1000
-            want_env = {f"CHURN_{tag}": str(rnd)}
+            want_env = dict(cls_env or {})
+            want_env.update({f"CHURN_{tag}": str(rnd)})
             want_env.update(jl.get("envars") or {})
             if ji.commands[0][0] != f"{exe} -n {npr} -m {mem} --flag C churn{rnd}" or dict(ji.envars or {}) != want_env:
                 bad += 1
@@ -341,6 +383,9 @@ def _drivers(plan, res):
 
     res.evals += 96
     bad = pool("a") + pool("b")
+    if cls_env and Drv.envars != cls_env:
+        res.violate("driver-settings", "C17|driver-settings|class-defaults-modified",
+                    f"the class-level envars of the driver class were {cls_env!r} and are {Drv.envars!r} after its instances were used")
     if bad:
         res.violate("driver-settings", "C17|driver-settings|after=earlier-drivers-released",
                     "after a pool of drivers had been used and released, a newly created driver with other settings built a JobInput "
@@ -372,11 +417,14 @@ def run_plan(plan, trace=False):
                 cases.append((fail, miss, None))
         for i in range(n):
             cases.append((None, frozenset(), i))
+        cases.append((None, frozenset(), "twin"))
         if only is not None:
             cases = [(tuple(only["fail"]) if only["fail"] else None, frozenset(only["missing"]), only["kill_at"])]
         for (fail, miss, kill_at) in cases:
             if fail is None and kill_at is None:
                 res.stats["probe:all_commands_succeed"] += 1
+            elif kill_at == "twin":
+                pass
             elif kill_at is not None:
                 res.stats["probe:runner_killed_mid_command"] += 1
             else:
@@ -390,10 +438,13 @@ def run_plan(plan, trace=False):
                     res.stats["probe:all_return_files_missing"] += 1
             fcls = "none" if fail is None else (("first" if fail[0] == 0 else "later") + "/" + ("signal" if fail[1] == "sig" else "rc"))
             if kill_at is not None:
-                fcls = "runner-killed"
+                fcls = "runner-killed" if kill_at != "twin" else "twin"
             sigctx = f"fail={fcls}|missing={'none' if not miss else ('all' if len(miss) == len(rets) else 'some')}|returns={'none' if not rets else 'some'}"
             nv = len(res.violations)
-            _exec_one(plan, fail, miss, kill_at, root, res, sigctx)
+            if kill_at == "twin":
+                _exec_one(plan, None, miss, None, root, res, "overlap=same-jid-twin", twin=True)
+            else:
+                _exec_one(plan, fail, miss, kill_at, root, res, sigctx)
             for v in res.violations[nv:]:
                 v["hint"] = {"fail": list(fail) if fail else None, "missing": sorted(miss), "kill_at": kill_at}
             if fail is not None or miss or kill_at is not None:
